@@ -171,6 +171,19 @@ def dropped_parameters(prog, funcs):
         for c in norm.calls_in(f.node):
             rt = resolved_target(prog, f, c)
             if rt is None:
+                # a method call that is resolved by hierarchy or by name only: the parameter is dropped if EVERY implementation the
+                # call may reach has it and the call does not pass it (MultiReader.vector -> <reader>.vector(..., format_))
+                try:
+                    r = common.calls_of(prog).resolve(f, c)
+                except Exception:
+                    continue
+                if r.kind in ("byname", "cha", "typed") and r.targets:
+                    for p in unused:
+                        if all(p in (t_.params + [x.arg for x in t_.node.args.kwonlyargs]) for t_ in r.targets) \
+                                and not any(k.arg == p for k in c.keywords) and (f.short, p) not in DROP_OK:
+                            m0, _ = common.bind_args(c, r.targets[0])
+                            if m0 is not None and p not in m0:
+                                out.append((f, p, c, r.targets[0]))
                 continue
             t, skip_self = rt
             m, _ = common.bind_args(c, t, skip_self=skip_self)
